@@ -23,11 +23,11 @@ LEVEL = "proof"
 # stream is NOT included; C08 claims the translator's C08_gen_* THEOREM FILES directly (Props/W4C08.v, W4C08b.v, W4C08c.v in THEOREM_FILES / COQ_TARGETS).
 INCLUDE = ['w4gen']   # wave 4 (lead, integration): differential stream + laws of the ktensor / sptensor methods the translator generates (Gen/GenKtensor4*.v, GenSptensor4*.v)
 GEN_UNITS = ["GenMethods3", "GenKtensor4", "GenKtensor4b"]     # Props/C08d.v: redistribute over the GENERATED ktensor_redistribute; Props/C08f.v: arrange (absorb branch); Props/C08g.v: update
-COQ_TARGETS = ["Props/W4C08.vo", "Props/W4C08b.vo", "Props/W4C08c.vo", "Props/C08.vo", "Props/C08b.vo", "Props/C08c.vo", "Props/C08d.vo", "Props/C08e.vo", "Props/C08f.vo", "Props/C08g.vo", "Props/C08h.vo", "Model/C08Inst4.vo", "Proofs/C08Gen.vo", "Model/C08Inst.vo", "Model/C08Inst2.vo", "Model/C08Inst3.vo", "Model/Harness.vo"]
-THEOREM_FILES = ["Props/C08.v", "Props/C08b.v", "Props/C08c.v", "Props/C08d.v", "Props/C08e.v", "Props/C08f.v", "Props/C08g.v", "Props/C08h.v",
-                 "Props/W4C08.v", "Props/W4C08b.v", "Props/W4C08c.v"]   # w4-translator: C08_gen_permute_* / _extract_* / _arrange_* / _tovec_* / _update_* (Gen/GenKtensor4.v), C08_gen_from_vector_* (Gen/GenKtensor4b.v)
+COQ_TARGETS = ["Props/W4C08.vo", "Props/W4C08b.vo", "Props/W4C08c.vo", "Props/C08.vo", "Props/C08b.vo", "Props/C08c.vo", "Props/C08d.vo", "Props/C08e.vo", "Props/C08f.vo", "Props/C08g.vo", "Props/C08h.vo", "Props/C08i.vo", "Props/C08j.vo", "Model/C08Update.vo", "Proofs/C08Gen3.vo", "Props/W4C08d.vo", "Model/C08Inst4.vo", "Proofs/C08Gen.vo", "Model/C08Inst.vo", "Model/C08Inst2.vo", "Model/C08Inst3.vo", "Model/Harness.vo"]
+THEOREM_FILES = ["Props/C08.v", "Props/C08b.v", "Props/C08c.v", "Props/C08d.v", "Props/C08e.v", "Props/C08f.v", "Props/C08g.v", "Props/C08h.v", "Props/C08i.v", "Props/C08j.v",
+                 "Props/W4C08.v", "Props/W4C08b.v", "Props/W4C08c.v", "Props/W4C08d.v"]   # w4-translator: C08_gen_permute_* / _extract_* / _arrange_* / _tovec_* / _update_* (Gen/GenKtensor4.v), C08_gen_from_vector_* (Gen/GenKtensor4b.v)
 COQ_IMPORTS = ("From Coq Require Import List ZArith QArith Qcanon Bool.\n"
-               "From PV Require Import Base.Index Base.Perm Model.Repr Model.Harness Model.C08Kruskal Model.C08Inst Model.C08More Model.C08Inst2 Model.C08Loop Model.C08Inst3 Model.C08Loop2 Model.C08Inst4 Proofs.C08Gen.\n")
+               "From PV Require Import Base.Index Base.Perm Model.Repr Model.Harness Model.C08Kruskal Model.C08Inst Model.C08More Model.C08Inst2 Model.C08Loop Model.C08Inst3 Model.C08Loop2 Model.C08Inst4 Model.C08Update Proofs.C08Gen Proofs.C08Gen3.\n")
 RULE = ("Kruskal tensors with 1-4 modes (1-way included), mode sizes 1-4, ranks 1-4, integer factor columns with exactly "
         "representable norms (zero columns included), weights of either sign and zero; every weight_factor (None, each mode, "
         "'all'), sort on/off, both norm types, mode=; every component permutation for R<=4 (thorough; sampled in quick) and "
@@ -43,11 +43,15 @@ RULE = ("Kruskal tensors with 1-4 modes (1-way included), mode sizes 1-4, ranks 
         "the histories and ~25 % of the single-step normalize / arrange / tolist / fixsigns(other) / score cases run on data scaled by powers of two "
         "(weights and / or single factors times 2^-24 .. 2^24; for exact N-th roots 2^-N*j), compared with purely relative (raw entries) and "
         "max-relative (sums) tolerances. fixsigns(other): pyttb is compared with the literal column loop (Model/C08Loop.v) and the loop with the "
-        "one-shot model exactly; references with FEWER, AS MANY and MORE components than the receiver (former finding C08-N2, repaired)")
+        "one-shot model exactly; references with FEWER, AS MANY and MORE components than the receiver (former finding C08-N2, repaired). UPDATE REQUESTS "
+        "(op update_req): admissible requests (also [] and surplus data) and every way the validation pass refuses one — a mode that does not exist after valid "
+        "blocks / first, data too short for a later / the first block, a repeated mode, descending modes, negative modes other than -1; the receiver is observed "
+        "AFTER the call in both cases (a rejected update must leave it as it was), compared with the state machine py_update and with the generated method")
 CORRESPONDENCE_ONLY = ["score: the congruence / penalty matrix (np.abs(A.T @ B), products, 1 - |la-lb|/max) is an executable Qc model compared per "
                        "case (best_perm and best_score, whenever the greedy choice is pinned = no tie among free cells); the THEOREMS cover the "
                        "greedy loop on an arbitrary matrix (permutation, greedy choice, score sum) and the final arrange(permutation); that the "
-                       "matrix entries exceed -10 is a hypothesis (they are products of absolute values and penalties in [0,1])",
+                       "entries of the MODEL matrix exceed -10 is proved since wave 5 (Props/C08j.v: C08_score_matrix_nonneg, _above_sentinel, "
+                       "C08_score_best_perm_is_perm_end_to_end) — that pyttb's float matrix equals the model matrix stays correspondence-only",
                        "ktensor.symmetrize END TO END through normalize('all') on inputs whose factors differ by more than column signs: compared per "
                        "case incl. histories (C08's transliteration k_symmetrize_core after qk_normalize WAll). PROVED since wave 4: "
                        "k_symmetrize_core = C15's k15_core on every well-formed cubic input (C08_symmetrize_bridge), the result is symmetric "
@@ -57,13 +61,16 @@ CORRESPONDENCE_ONLY = ["score: the congruence / penalty matrix (np.abs(A.T @ B),
                        "multi-step histories, memory layouts (F, C, matmul result as left by normalize(weight_factor=..), strided C / F views, transposed "
                        "views, negative strides; assigned or through the constructor with copy=True/False) and operand aliasing: compared per case "
                        "(model state chained through the steps); numpy memory order is not modelled in Coq",
-                       "from_vector, tolist, tovec (hand transliterations; tovec's generated version is bridged to k_tovec by w4-translator: C08_gen_tovec_model in Props/W4C08b.v; the generated "
-                       "from_vector is bridged to a hand reference only), the "
+                       "tolist (hand transliteration: tied by the correspondence stream only; tovec / from_vector / update are ALSO bridged from their generated versions: "
+                       "C08_gen_tovec_model (Props/W4C08b.v), C08_gen_from_vector_model / C08_gen_vec_roundtrip (Props/W4C08d.v), C08_gen_update_state (Props/C08g.v)), the "
                        "sign / absorb / sort steps of normalize (array operations in the source, modelled as such): tied by the correspondence stream",
                        "normal form w.r.t. numpy's own norm: the theorems assume the norm oracle satisfies nrm_spec (positively homogeneous, even, "
                        "zero on zero columns; instantiated and proved for the exact 1-norm over Qc); np.linalg.norm itself is tied by the "
                        "per-case evaluation of unit columns / zero weights on pyttb's result"]
-NOTES = ["C08-N2 (fixsigns(other) with a reference of MORE components than the receiver: IndexError) is repaired in /repo 8ac87f0: the loop "
+NOTES = ["ktensor.update follows /repo b9311d6 (finding C19-N25, repaired): the whole request is validated before the first in-place store and the modes must be "
+         "STRICTLY ascending; Model/C08Update.v is the repaired two-pass code, the one-pass loop survives only as py_update_one_pass (Example: it leaves a partly "
+         "rewritten receiver); the former witnesses are ordinary cases of the op update_req stream (kinds bad_later_mode, short_later, repeat, negative)",
+         "C08-N2 (fixsigns(other) with a reference of MORE components than the receiver: IndexError) is repaired in /repo 8ac87f0: the loop "
          "model runs over range(min(RA, RB)), the loop theorems have no rank hypothesis, such references are sent on every run unattributed",
          "A-29 (fixsigns(other) odd flips), A-22 (fixsigns(other) normalised `other` in place) and A-45 (arrange accepted non-permutations) are "
          "repaired in /repo: the model IS the repaired pairing rule, fixsigns(other) must leave `other` untouched (compared per case), no trigger "
@@ -264,6 +271,15 @@ def gen_cases(rng, tier):
                     n = sum((R if k == -1 else shape[k] * R) for k in modes)
                     data = [rng.randint(-5, 5) for _ in range(n)]
                     cases.append(Case("update", {"w": w, "f": f, "modes": modes, "data": data}, True))
+                # ---- update REQUESTS as a state machine on the receiver (wave 5, fix b9311d6): accepted and rejected ones; the
+                #      receiver AFTER the call is observed in both cases (a rejected update must leave it untouched)
+                for kind in UPDATE_REQ_KINDS:
+                    if not big and rng.random() < 0.35:
+                        continue
+                    w, f = rand_k(rng, shape, R, 1)
+                    rq = gen_update_req(rng, shape, R, kind)
+                    if rq is not None:
+                        cases.append(Case("update_req", {"w": w, "f": f, "modes": rq[0], "data": rq[1], "kind": kind}, True))
                 # ---- tolist
                 w, f = rand_k(rng, shape, R, 2)
                 wl = [x ** N if x >= 0 else -((-x) ** N) for x in w] if rng.random() < 0.8 else [1] * R
@@ -359,6 +375,64 @@ def gen_cases(rng, tier):
     import sys
     cases += c08_hist.gen_hist(rng, sys.modules[__name__], tier)
     return cases
+
+
+UPDATE_REQ_KINDS = ("ok", "ok_long", "bad_later_mode", "bad_first_mode", "short_later", "short_first", "repeat", "descending", "negative")
+
+
+def gen_update_req(rng, shape, R, kind):
+    """-> (modes, data) for ktensor.update: admissible requests and every way pass 1 of update refuses one.  The rejected kinds put the
+    offending block LAST where possible, so that the one-pass loop (update before b9311d6) would already have assigned the earlier blocks"""
+    N = len(shape)
+    allm = [-1] + list(range(N))
+    blk = lambda k: R if k == -1 else shape[k] * R
+    rnd = lambda n: [rng.randint(-5, 5) for _ in range(n)]
+    sub = sorted(rng.sample(allm, rng.randint(1, len(allm))))
+    if kind == "ok":
+        if rng.random() < 0.15:
+            return [], []
+        return sub, rnd(sum(blk(k) for k in sub))
+    if kind == "ok_long":                   # more data than needed: accepted (with a warning), the surplus is ignored
+        return sub, rnd(sum(blk(k) for k in sub) + rng.randint(1, 3))
+    if kind == "bad_later_mode":            # valid blocks first, then a mode that does not exist
+        return sub + [N + rng.randint(0, 2)], rnd(sum(blk(k) for k in sub) + rng.choice([0, R, 2 * R, 3 * R]))
+    if kind == "bad_first_mode":
+        return [rng.choice([-2, -3, -N - 1])] + sub, rnd(sum(blk(k) for k in sub) + rng.choice([0, R, 2 * R]))
+    if kind == "short_later":               # enough for all blocks but the last
+        if len(sub) < 2:
+            sub = sorted(rng.sample(allm, 2)) if len(allm) >= 2 else None
+        if sub is None:
+            return None
+        need = sum(blk(k) for k in sub)
+        return sub, rnd(need - rng.randint(1, blk(sub[-1])))
+    if kind == "short_first":
+        return sub, rnd(rng.randint(0, blk(sub[0]) - 1))
+    if kind == "repeat":                    # refused since b9311d6 (strictly ascending)
+        k = rng.choice(sub)
+        i = sub.index(k)
+        ms = sub[:i + 1] + [k] + sub[i + 1:]
+        return ms, rnd(sum(blk(k_) for k_ in ms))
+    if kind == "descending":
+        if len(allm) < 2:
+            return None
+        ms = rng.sample(allm, rng.randint(2, len(allm)))
+        if ms == sorted(ms):
+            ms.reverse()
+        return ms, rnd(sum(blk(k) for k in ms))
+    if kind == "negative":                  # a negative mode other than -1 counted from the end before b9311d6 (silently rewrote a factor)
+        k = rng.choice([-2, -N - 1] if N >= 1 else [-2])
+        ms = sorted(set(sub + [k]))
+        return ms, rnd(sum(blk(k_) if k_ >= -1 else max(shape) * R for k_ in ms))
+    raise ValueError(kind)
+
+
+def update_req_accepted(shape, R, modes, data):
+    """what the documented contract says (independent of the Coq model): strictly ascending, each mode -1 or a mode, enough data"""
+    if any(x >= y for x, y in zip(modes, modes[1:])):
+        return False
+    if any(k != -1 and not (0 <= k < len(shape)) for k in modes):
+        return False
+    return len(data) >= sum((R if k == -1 else shape[k] * R) for k in modes)
 
 
 def gen_fixsigns_other(rng, shape, RA, RB, pat):
@@ -469,6 +543,19 @@ def run_impl(c):
         if c.op == "update":
             K.update(np.array(a["modes"]), np.array(a["data"], dtype=float))
             return {"ok": tgen.obs_ktensor(np, K)}
+        if c.op == "update_req":
+            import warnings
+            exc = None
+            try:
+                with warnings.catch_warnings():
+                    warnings.simplefilter("ignore")
+                    ret = K.update(np.array(a["modes"], dtype=int), np.array(a["data"], dtype=float))
+                same_obj = ret is K
+            except AssertionError as ex:
+                exc, same_obj = str(ex)[:60], True
+            except Exception as ex:             # not the documented refusal (e.g. IndexError from inside the assigning loop)
+                exc, same_obj = f"{type(ex).__name__}: {str(ex)[:50]}", True
+            return {"ok": tgen.obs_ktensor(np, K), "rejected": exc, "same_obj": bool(same_obj)}
         if c.op == "tolist":
             fl = K.tolist() if a["mode"] is None else K.tolist(a["mode"])
             return {"ok": {"weights": [1] * len(a["w"]), "factors": [tgen.obs_matrix(np, A) for A in fl]}}
@@ -638,6 +725,20 @@ def coq_check0(c, o):
         full = len(a["modes"]) == len(a["f"]) + 1
         extra = f" && zk_eqb O (zk_from_vector {gzlist(a['data'])} {shp} true)" if full else ""
         return f"let K := {K} in let O := {O} in zk_eqb (zk_update {ms} {gzlist(a['data'])} K) O{extra}"
+    if c.op == "update_req":
+        # pyttb against the state machine of Model/C08Update.v (accepted?, receiver as left); a rejected request must leave the receiver
+        # as it was (theorem C08_update_rejected_unchanged), an accepted one the functional model (C08_update_accepted_model)
+        if not o["same_obj"]:
+            return "false"
+        acc = o["rejected"] is None
+        if acc and any(k < -1 for k in a["modes"]):
+            return "false"              # a mode below -1 can never be accepted
+        ms = gzlist(a["modes"])
+        mo = "[" + "; ".join("None" if k == -1 else f"Some {k}%nat" for k in a["modes"]) + "]"
+        post = f"zk_eqb O (zk_update {mo} {gzlist(a['data'])} K)" if acc else "zk_eqb O K"
+        return (f"let K := {K} in let O := {O} in let r := zk_py_update {ms} {gzlist(a['data'])} K in "
+                f"Bool.eqb (fst r) {'true' if acc else 'false'} && zk_eqb (snd r) O && {post} && "
+                f"zk_gen_update_agrees {ms} {gzlist(a['data'])} K O {'true' if acc else 'false'}")
     if c.op == "arrange_perm":
         return f"let K := {K} in let O := {O} in zk_eqb (zk_gather {gnlist(a['p'])} K) O && zk_den_eqb {shp} K O"
     if c.op == "extract":
@@ -706,6 +807,15 @@ def oracle(c, o):
                 return f"mask(W) at {i}: {v} instead of {float(den(a['w'], a['f'], i))}"
         return None
     if c.op == "update":
+        return None
+    if c.op == "update_req":
+        want = update_req_accepted(shape, len(a["w"]), a["modes"], a["data"])
+        if want != (o["rejected"] is None):
+            return f"update({a['modes']}, {len(a['data'])} numbers) {'accepted' if not want else 'rejected: ' + str(o['rejected'])} against the documented contract"
+        if not want and (ob["weights"] != a["w"] or ob["factors"] != a["f"]):
+            return f"rejected update ({o['rejected']}) left a modified receiver"
+        if not want and not any(t in o["rejected"] for t in ("Invalid mode", "Data is too short", "Modes must be sorted")):
+            return f"update refused an inadmissible request with {o['rejected']} instead of its documented assertion"
         return None
     if c.op == "permute":
         shape2 = [shape[k] for k in a["order"]]
